@@ -199,6 +199,7 @@ func expectTime(cl derref.TimeClass, v derref.TimeVal, consumed int) expect {
 
 type reader struct {
 	cls   string // name used in violation classes (default: name)
+	light bool   // variant of another reader (nil optional parameter, other pre-load): left out of the quick length-3 sweep
 	name  string
 	group int // 0 generic, 1 typed, 2 explicit-tag optional
 	// real runs the reader on s; p is the tag parameter (when the reader has one)
@@ -233,6 +234,20 @@ func eqVal(a, b any) bool {
 var seedByte byte // varies the OCTET STRING contents with VERIF_SEED
 
 var defBig = big.NewInt(7777)
+
+// preBig is a destination that already holds a long negative value.
+func preBig() *big.Int { return new(big.Int).Set(preBigVal) }
+
+// Old values of the destinations (B). The readers only ever assign to their destination, so
+// the slices can be shared between calls.
+var (
+	preBigVal = new(big.Int).Lsh(big.NewInt(-3), 300)
+	preString = cryptobyte.String{1, 2, 3}
+	preBytes  = []byte{9, 9, 9}
+	preOID    = encoding_asn1.ObjectIdentifier{9, 9, 9, 9, 9, 9, 9, 9}
+	preTime   = time.Unix(1234567, 89).In(time.FixedZone("PRE", 5*3600))
+	preBits   = encoding_asn1.BitString{Bytes: []byte{1, 2, 3}, BitLength: 21}
+)
 var sentinel = []byte{1, 2, 3}
 var absentOpt any = optOut{nil, false}
 var boxTrue, boxFalse any = true, false
@@ -261,73 +276,73 @@ func intReader(kind string) reader {
 	r.real = func(s *cryptobyte.String, _ asn1.Tag) (bool, any) {
 		switch kind {
 		case "int8":
-			var v int8
+			v := int8(-1)
 			if !s.ReadASN1Integer(&v) {
 				return false, nil
 			}
 			return true, int64(v)
 		case "int16":
-			var v int16
+			v := int16(-1)
 			if !s.ReadASN1Integer(&v) {
 				return false, nil
 			}
 			return true, int64(v)
 		case "int32":
-			var v int32
+			v := int32(-1)
 			if !s.ReadASN1Integer(&v) {
 				return false, nil
 			}
 			return true, int64(v)
 		case "int64":
-			var v int64
+			v := int64(-1)
 			if !s.ReadASN1Integer(&v) {
 				return false, nil
 			}
 			return true, v
 		case "int":
-			var v int
+			v := int(-1)
 			if !s.ReadASN1Integer(&v) {
 				return false, nil
 			}
 			return true, int64(v)
 		case "uint8":
-			var v uint8
+			v := ^uint8(0)
 			if !s.ReadASN1Integer(&v) {
 				return false, nil
 			}
 			return true, uint64(v)
 		case "uint16":
-			var v uint16
+			v := ^uint16(0)
 			if !s.ReadASN1Integer(&v) {
 				return false, nil
 			}
 			return true, uint64(v)
 		case "uint32":
-			var v uint32
+			v := ^uint32(0)
 			if !s.ReadASN1Integer(&v) {
 				return false, nil
 			}
 			return true, uint64(v)
 		case "uint64":
-			var v uint64
+			v := ^uint64(0)
 			if !s.ReadASN1Integer(&v) {
 				return false, nil
 			}
 			return true, v
 		case "uint":
-			var v uint
+			v := ^uint(0)
 			if !s.ReadASN1Integer(&v) {
 				return false, nil
 			}
 			return true, uint64(v)
 		case "big":
-			v := new(big.Int)
+			v := preBig()
 			if !s.ReadASN1Integer(v) {
 				return false, nil
 			}
 			return true, v
 		default:
-			var v []byte
+			v := preBytes
 			if !s.ReadASN1Integer(&v) {
 				return false, nil
 			}
@@ -411,25 +426,34 @@ func optIntReader(kind string) reader {
 	r.real = func(s *cryptobyte.String, p asn1.Tag) (bool, any) {
 		switch kind {
 		case "int64":
-			var v int64
+			v := int64(0x5555555555555555)
 			if !s.ReadOptionalASN1Integer(&v, p, int64(-42)) {
 				return false, nil
 			}
 			return true, v
 		case "uint8":
-			var v uint8
+			v := uint8(0x55)
 			if !s.ReadOptionalASN1Integer(&v, p, uint8(200)) {
 				return false, nil
 			}
 			return true, uint64(v)
 		case "big":
-			v := new(big.Int)
-			if !s.ReadOptionalASN1Integer(v, p, defBig) {
+			// the default value stays the caller's: the result is scribbled over afterwards
+			// and the default must still be 7777 (A), the destination holds an old value (B)
+			v, def := preBig(), big.NewInt(7777)
+			if !s.ReadOptionalASN1Integer(v, p, def) {
 				return false, nil
 			}
-			return true, v
+			res := new(big.Int).Set(v)
+			for i, w := range v.Bits() {
+				v.Bits()[i] = ^w
+			}
+			if def.Cmp(defBig) != 0 {
+				return true, "the *big.Int result shares memory with defaultValue"
+			}
+			return true, res
 		default:
-			var v []byte
+			v := preBytes
 			if !s.ReadOptionalASN1Integer(&v, p, []byte{9, 9}) {
 				return false, nil
 			}
@@ -477,8 +501,8 @@ func readers() []reader {
 	rs := []reader{
 		{name: "ReadAnyASN1", group: 0,
 			real: func(s *cryptobyte.String, _ asn1.Tag) (bool, any) {
-				var out cryptobyte.String
-				var t asn1.Tag
+				out := preString
+				t := asn1.Tag(0xEE)
 				ok := s.ReadAnyASN1(&out, &t)
 				if !ok {
 					return false, nil
@@ -493,8 +517,8 @@ func readers() []reader {
 			}},
 		{name: "ReadAnyASN1Element", group: 0,
 			real: func(s *cryptobyte.String, _ asn1.Tag) (bool, any) {
-				var out cryptobyte.String
-				var t asn1.Tag
+				out := preString
+				t := asn1.Tag(0xEE)
 				ok := s.ReadAnyASN1Element(&out, &t)
 				if !ok {
 					return false, nil
@@ -508,6 +532,58 @@ func readers() []reader {
 				return expect{verdict: mustAccept, val: anyOut{x.b[:x.tlv.Total], x.tlv.Tag}, consumed: x.tlv.Total}
 			}},
 	}
+	// E: the optional output parameters left out (nil outTag / nil outPresent)
+	rs = append(rs,
+		reader{name: "ReadAnyASN1(nil outTag)", cls: "ReadAnyASN1", light: true, group: 0,
+			real: func(s *cryptobyte.String, _ asn1.Tag) (bool, any) {
+				out := preString
+				if !s.ReadAnyASN1(&out, nil) {
+					return false, nil
+				}
+				return true, []byte(out)
+			},
+			model: func(x *input, _ byte) expect {
+				if x.perr != "" {
+					return rej(x.perr)
+				}
+				return expect{verdict: mustAccept, val: x.tlv.Content, consumed: x.tlv.Total}
+			}},
+		reader{name: "ReadAnyASN1Element(nil outTag)", cls: "ReadAnyASN1Element", light: true, group: 0,
+			real: func(s *cryptobyte.String, _ asn1.Tag) (bool, any) {
+				out := preString
+				if !s.ReadAnyASN1Element(&out, nil) {
+					return false, nil
+				}
+				return true, []byte(out)
+			},
+			model: func(x *input, _ byte) expect {
+				if x.perr != "" {
+					return rej(x.perr)
+				}
+				return expect{verdict: mustAccept, val: x.b[:x.tlv.Total], consumed: x.tlv.Total}
+			}},
+		reader{name: "ReadOptionalASN1(nil outPresent)", cls: "ReadOptionalASN1", light: true, group: 0, param: true,
+			real: func(s *cryptobyte.String, p asn1.Tag) (bool, any) {
+				out := preString
+				before := len(*s)
+				if !s.ReadOptionalASN1(&out, nil, p) {
+					return false, nil
+				}
+				if len(*s) == before {
+					return true, absentOpt
+				}
+				return true, optOut{out, true}
+			},
+			model: func(x *input, p byte) expect {
+				if len(x.b) == 0 || x.b[0] != p {
+					return expect{verdict: mustAccept, val: absentOpt, consumed: 0, reason: "absent"}
+				}
+				if x.perr != "" {
+					return rej("tag present but no DER TLV")
+				}
+				return expect{verdict: mustAccept, val: optOut{x.tlv.Content, true}, consumed: x.tlv.Total}
+			}},
+	)
 	tagged := func(name string, element bool, real func(s *cryptobyte.String, p asn1.Tag) (bool, any)) reader {
 		return reader{name: name, group: 0, param: true, real: real,
 			model: func(x *input, p byte) expect {
@@ -526,21 +602,21 @@ func readers() []reader {
 	}
 	rs = append(rs,
 		tagged("ReadASN1", false, func(s *cryptobyte.String, p asn1.Tag) (bool, any) {
-			var out cryptobyte.String
+			out := preString
 			if !s.ReadASN1(&out, p) {
 				return false, nil
 			}
 			return true, []byte(out)
 		}),
 		tagged("ReadASN1Element", true, func(s *cryptobyte.String, p asn1.Tag) (bool, any) {
-			var out cryptobyte.String
+			out := preString
 			if !s.ReadASN1Element(&out, p) {
 				return false, nil
 			}
 			return true, []byte(out)
 		}),
 		tagged("ReadASN1Bytes", false, func(s *cryptobyte.String, p asn1.Tag) (bool, any) {
-			var out []byte
+			out := preBytes
 			if !s.ReadASN1Bytes(&out, p) {
 				return false, nil
 			}
@@ -561,14 +637,14 @@ func readers() []reader {
 			}},
 		reader{name: "ReadOptionalASN1", group: 0, param: true,
 			real: func(s *cryptobyte.String, p asn1.Tag) (bool, any) {
-				var out cryptobyte.String
-				var present bool
+				out := preString
+				present := len(*s)&1 == 0 // old value: either
 				ok := s.ReadOptionalASN1(&out, &present, p)
 				if !ok {
 					return false, nil
 				}
-				if !present && out == nil {
-					return true, absentOpt
+				if !present {
+					return true, absentOpt // out is not specified when the element is absent
 				}
 				return true, optOut{out, present}
 			},
@@ -602,37 +678,40 @@ func readers() []reader {
 			}},
 	)
 	// typed readers
-	rs = append(rs, reader{name: "ReadASN1Boolean", group: 1,
-		real: func(s *cryptobyte.String, _ asn1.Tag) (bool, any) {
-			var v bool
-			if !s.ReadASN1Boolean(&v) {
-				return false, nil
-			}
-			return true, v
-		},
-		model: func(x *input, _ byte) expect {
-			c, e, ok := x.typed(0x01, "BOOLEAN")
-			if !ok {
-				return e
-			}
-			v, why := derref.Boolean(c)
-			if why != "" {
-				return rej(why)
-			}
-			return expect{verdict: mustAccept, val: v, consumed: x.tlv.Total}
-		},
-		std: func(el []byte) (any, bool) {
-			var v bool
-			rest, err := encoding_asn1.Unmarshal(el, &v)
-			return v, err == nil && len(rest) == 0
-		}})
+	for _, pre := range []bool{false, true} {
+		pre := pre
+		rs = append(rs, reader{name: fmt.Sprintf("ReadASN1Boolean(out holds %v)", pre), cls: "ReadASN1Boolean", light: pre, group: 1,
+			real: func(s *cryptobyte.String, _ asn1.Tag) (bool, any) {
+				v := pre
+				if !s.ReadASN1Boolean(&v) {
+					return false, nil
+				}
+				return true, v
+			},
+			model: func(x *input, _ byte) expect {
+				c, e, ok := x.typed(0x01, "BOOLEAN")
+				if !ok {
+					return e
+				}
+				v, why := derref.Boolean(c)
+				if why != "" {
+					return rej(why)
+				}
+				return expect{verdict: mustAccept, val: v, consumed: x.tlv.Total}
+			},
+			std: func(el []byte) (any, bool) {
+				var v bool
+				rest, err := encoding_asn1.Unmarshal(el, &v)
+				return v, err == nil && len(rest) == 0
+			}})
+	}
 	for _, k := range []string{"int8", "int16", "int32", "int64", "int", "uint8", "uint16", "uint32", "uint64", "uint", "big", "bytes"} {
 		rs = append(rs, intReader(k))
 	}
 	rs = append(rs,
 		reader{name: "ReadASN1Int64WithTag", group: 1, param: true,
 			real: func(s *cryptobyte.String, p asn1.Tag) (bool, any) {
-				var v int64
+				v := int64(-1)
 				if !s.ReadASN1Int64WithTag(&v, p) {
 					return false, nil
 				}
@@ -649,7 +728,7 @@ func readers() []reader {
 			}},
 		reader{name: "ReadASN1Enum", group: 1,
 			real: func(s *cryptobyte.String, _ asn1.Tag) (bool, any) {
-				var v int
+				v := int(-1)
 				if !s.ReadASN1Enum(&v) {
 					return false, nil
 				}
@@ -669,7 +748,7 @@ func readers() []reader {
 			}},
 		reader{name: "ReadASN1ObjectIdentifier", group: 1,
 			real: func(s *cryptobyte.String, _ asn1.Tag) (bool, any) {
-				var v encoding_asn1.ObjectIdentifier
+				v := preOID
 				if !s.ReadASN1ObjectIdentifier(&v) {
 					return false, nil
 				}
@@ -687,13 +766,13 @@ func readers() []reader {
 				return expect{verdict: mustAccept, val: arcs, consumed: x.tlv.Total}
 			},
 			std: func(el []byte) (any, bool) {
-				var v encoding_asn1.ObjectIdentifier
+				v := preOID
 				rest, err := encoding_asn1.Unmarshal(el, &v)
 				return []int(v), err == nil && len(rest) == 0
 			}},
 		reader{name: "ReadASN1GeneralizedTime", group: 1,
 			real: func(s *cryptobyte.String, _ asn1.Tag) (bool, any) {
-				var v time.Time
+				v := preTime
 				if !s.ReadASN1GeneralizedTime(&v) {
 					return false, nil
 				}
@@ -710,7 +789,7 @@ func readers() []reader {
 			std: stdTime},
 		reader{name: "ReadASN1UTCTime", group: 1,
 			real: func(s *cryptobyte.String, _ asn1.Tag) (bool, any) {
-				var v time.Time
+				v := preTime
 				if !s.ReadASN1UTCTime(&v) {
 					return false, nil
 				}
@@ -727,7 +806,7 @@ func readers() []reader {
 			std: stdTime},
 		reader{name: "ReadASN1BitString", group: 1,
 			real: func(s *cryptobyte.String, _ asn1.Tag) (bool, any) {
-				var v encoding_asn1.BitString
+				v := preBits
 				if !s.ReadASN1BitString(&v) {
 					return false, nil
 				}
@@ -745,13 +824,13 @@ func readers() []reader {
 				return expect{verdict: mustAccept, val: bitOut{d, n}, consumed: x.tlv.Total}
 			},
 			std: func(el []byte) (any, bool) {
-				var v encoding_asn1.BitString
+				v := preBits
 				rest, err := encoding_asn1.Unmarshal(el, &v)
 				return bitOut{v.Bytes, v.BitLength}, err == nil && len(rest) == 0
 			}},
 		reader{name: "ReadASN1BitStringAsBytes", group: 1,
 			real: func(s *cryptobyte.String, _ asn1.Tag) (bool, any) {
-				var v []byte
+				v := preBytes
 				if !s.ReadASN1BitStringAsBytes(&v) {
 					return false, nil
 				}
@@ -773,7 +852,7 @@ func readers() []reader {
 			}},
 		reader{name: "ReadASN1Bytes(OCTET STRING)", group: 1,
 			real: func(s *cryptobyte.String, _ asn1.Tag) (bool, any) {
-				var v []byte
+				v := preBytes
 				if !s.ReadASN1Bytes(&v, asn1.OCTET_STRING) {
 					return false, nil
 				}
@@ -787,7 +866,7 @@ func readers() []reader {
 				return expect{verdict: mustAccept, val: c, consumed: x.tlv.Total}
 			},
 			std: func(el []byte) (any, bool) {
-				var v []byte
+				v := preBytes
 				rest, err := encoding_asn1.Unmarshal(el, &v)
 				return v, err == nil && len(rest) == 0
 			}},
@@ -800,7 +879,7 @@ func readers() []reader {
 		reader{name: "ReadOptionalASN1OctetString", group: 2, param: true,
 			real: func(s *cryptobyte.String, p asn1.Tag) (bool, any) {
 				v := sentinel
-				present := false
+				present := len(*s)&1 == 0 // old value: either
 				ok := s.ReadOptionalASN1OctetString(&v, &present, p)
 				if !ok {
 					return false, nil
@@ -809,6 +888,33 @@ func readers() []reader {
 					return true, absentOpt
 				}
 				return true, optOut{v, present}
+			},
+			model: func(x *input, p byte) expect {
+				inner, e, present := explicit(x, p, 0x04, "OCTET STRING")
+				if !present {
+					if e.verdict == mustAccept {
+						e.val = absentOpt
+					}
+					return e
+				}
+				return expect{verdict: mustAccept, val: optOut{inner, true}, consumed: x.tlv.Total}
+			}},
+	)
+	rs = append(rs,
+		reader{name: "ReadOptionalASN1OctetString(nil outPresent)", cls: "ReadOptionalASN1OctetString", light: true, group: 2, param: true,
+			real: func(s *cryptobyte.String, p asn1.Tag) (bool, any) {
+				v := sentinel
+				before := len(*s)
+				if !s.ReadOptionalASN1OctetString(&v, nil, p) {
+					return false, nil
+				}
+				if len(*s) == before {
+					if v != nil {
+						return true, "out is not nil although the element is absent"
+					}
+					return true, absentOpt
+				}
+				return true, optOut{v, true}
 			},
 			model: func(x *input, p byte) expect {
 				inner, e, present := explicit(x, p, 0x04, "OCTET STRING")
@@ -876,16 +982,18 @@ type nkey struct {
 }
 
 type stats struct {
-	s       cryptobyte.String
-	nkeys   map[nkey]struct{}
-	cur     int // reader being run (for the panic report)
-	curP    byte
-	evals   int
-	accepts []int64
-	rejects []int64
-	stdCmp  int64
-	keys    map[string]struct{}
-	lenient map[string]int64
+	skipLight bool
+	orig      []byte
+	s         cryptobyte.String
+	nkeys     map[nkey]struct{}
+	cur       int // reader being run (for the panic report)
+	curP      byte
+	evals     int
+	accepts   []int64
+	rejects   []int64
+	stdCmp    int64
+	keys      map[string]struct{}
+	lenient   map[string]int64
 }
 
 func (k *checker) newStats() *stats {
@@ -1002,6 +1110,14 @@ func (k *checker) checkInput(b []byte, groups [3]bool, st *stats) {
 			k.report(r.class()+": panic", r, b, st.curP, map[string]any{"panic": fmt.Sprint(rec)})
 		}
 	}()
+	// A: parsing never writes to the input (pristine copy compared after all readers ran)
+	st.orig = append(st.orig[:0], b...)
+	defer func() {
+		if !bytes.Equal(st.orig, b) {
+			k.blameWriter(append([]byte(nil), st.orig...), groups)
+			copy(b, st.orig)
+		}
+	}()
 	x := &input{b: b}
 	x.tlv, x.perr = derref.Parse(b)
 	var own byte
@@ -1010,7 +1126,7 @@ func (k *checker) checkInput(b []byte, groups [3]bool, st *stats) {
 	}
 	for ri := range k.rs {
 		r := &k.rs[ri]
-		if !groups[r.group] {
+		if !groups[r.group] || r.light && st.skipLight {
 			continue
 		}
 		if !r.param {
@@ -1032,6 +1148,34 @@ func (k *checker) checkInput(b []byte, groups [3]bool, st *stats) {
 	if x.perr != "" && len(st.keys) < 4096 {
 		st.keys["reject|"+x.perr] = struct{}{}
 	}
+}
+
+// blameWriter finds the reader that modified the input orig (slow path, only after a
+// modification was seen).
+func (k *checker) blameWriter(orig []byte, groups [3]bool) {
+	var own byte
+	if len(orig) > 0 {
+		own = orig[0]
+	}
+	for ri := range k.rs {
+		r := &k.rs[ri]
+		if !groups[r.group] {
+			continue
+		}
+		for _, p := range []byte{own, own ^ 0x20, 0xA0, 0x04} {
+			b := append([]byte(nil), orig...)
+			s := cryptobyte.String(b)
+			vf.Protect(func() { r.real(&s, asn1.Tag(p)) })
+			if !bytes.Equal(b, orig) {
+				k.report(r.class()+" writes to its input", r, orig, p, map[string]any{"input_after": hexN(b)})
+				return
+			}
+			if !r.param {
+				break
+			}
+		}
+	}
+	k.c.Violation("some reader writes to its input", map[string]any{"input": hexN(orig)})
 }
 
 // ---------------------------------------------------------------------------
@@ -1060,6 +1204,7 @@ func (k *checker) sweep(maxLen int, groups [3]bool, label string) {
 	if maxLen >= 3 {
 		c.ParallelFor(65536, func(i int) {
 			st := k.newStats()
+			st.skipLight = !k.c.Thorough
 			defer k.merge(st)
 			for j := 0; j < 256; j++ {
 				k.checkInput([]byte{byte(i >> 8), byte(i), byte(j)}, groups, st)
@@ -1146,6 +1291,17 @@ func intContents(full bool) [][]byte {
 	add(append([]byte{0x01}, make([]byte, 8)...)) // 2^64
 	add(append([]byte{0x00, 0xff}, make([]byte, 7)...))
 	add(append([]byte{0x7f}, bytes.Repeat([]byte{0xff}, 19)...))
+	if full {
+		// E: content lengths around 32 and 256 octets (8*len wraps in 8 bits at 32, len in 8 bits at 256)
+		for _, n := range []int{31, 32, 33, 255, 256, 257} {
+			for _, head := range [][2]byte{{0x80, 0x5a}, {0xff, 0x5a}, {0xff, 0xda}, {0x7f, 0x5a}, {0x00, 0xda}, {0x00, 0x5a}} {
+				b := bytes.Repeat([]byte{0x5a}, n)
+				b[0], b[1] = head[0], head[1] // ff da.. and 00 5a.. are the non-minimal ones
+				b[n-1] = 0x01
+				add(b)
+			}
+		}
+	}
 	return out
 }
 
@@ -1191,7 +1347,9 @@ func bitContents() [][]byte {
 
 func octetContents() [][]byte {
 	var out [][]byte
-	for _, n := range []int{0, 1, 2, 126, 127, 128, 129, 255, 256, 257, 65535, 65536} {
+	// E: 0x180 / 0x7fff / 0x8000 / 0xff00 / 0x10080: lengths whose low octet is >= 0x80 or zero
+	// away from the 2^8 / 2^16 boundaries, and either side of bit 15
+	for _, n := range []int{0, 1, 2, 126, 127, 128, 129, 255, 256, 257, 0x180, 0x7fff, 0x8000, 0xff00, 65535, 65536, 0x10080} {
 		b := make([]byte, n)
 		for i := range b {
 			b[i] = byte(i*13+1) + seedByte
@@ -1232,6 +1390,8 @@ func coreContents(fullInts bool) []content {
 	}
 	return out
 }
+
+var readerTag = map[byte]bool{0x01: true, 0x02: true, 0x03: true, 0x04: true, 0x06: true, 0x0a: true, 0x17: true, 0x18: true, 0x30: true, 0xa0: true, 0x24: true, 0x84: true}
 
 // length-octet forms for a content of n bytes; nil = form not applicable
 func lengthForms(n int) (names []string, forms [][]byte) {
@@ -1275,6 +1435,9 @@ func (k *checker) gridG1(contents []content, tags []int, label string) {
 		for _, tag := range tags {
 			if len(ct.data) > 4096 && tag&0x0f > 4 && tag != 0x30 {
 				continue // the two 64K contents only under 5/16 of the identifier octets + SEQUENCE
+			}
+			if n := len(ct.data); n > 4096 && n != 65535 && n != 65536 && !readerTag[byte(tag)] {
+				continue // the other long contents under the identifier octets some reader looks for
 			}
 			for fi, form := range forms {
 				for tail := 0; tail < 3; tail++ {
@@ -1327,6 +1490,64 @@ func (k *checker) special() {
 		}
 	}
 	k.c.Set("special_32bit_length_inputs", n)
+}
+
+// huge (C): elements around 2^24 content octets - the only inputs on which the four-octet
+// long form is the minimal one, i.e. on which the 0x84 path accepts. Under OCTET STRING and
+// SEQUENCE: 2^24-1 octets with 83 ffffff (DER) and with 84 00ffffff (not minimal); 2^24 and
+// 2^24+1 octets with 84 01000000 / 84 01000001; one octet missing; one octet trailing.
+// Run one after the other (each input is 16 MiB; every reader sub-slices).
+func (k *checker) huge() {
+	const B = 1 << 24
+	const room = 8 // header octets are written in front of the one content buffer
+	whole := make([]byte, room+B+1)
+	content := whole[room:]
+	for i := range content {
+		content[i] = byte(i*7+3) + seedByte
+	}
+	type in struct {
+		hdr []byte
+		n   int
+	}
+	ins := []in{
+		{[]byte{0x83, 0xff, 0xff, 0xff}, B - 1},
+		{[]byte{0x84, 0x00, 0xff, 0xff, 0xff}, B - 1},
+		{[]byte{0x84, 0x01, 0x00, 0x00, 0x00}, B},
+		{[]byte{0x84, 0x01, 0x00, 0x00, 0x00}, B - 1},
+		{[]byte{0x84, 0x01, 0x00, 0x00, 0x00}, B + 1},
+		{[]byte{0x84, 0x01, 0x00, 0x00, 0x01}, B + 1},
+		{[]byte{0x83, 0xff, 0xff, 0xff}, B - 2},
+	}
+	st := k.newStats()
+	defer k.merge(st)
+	n := 0
+	for _, tag := range []byte{0x04, 0x30} {
+		for xi, x := range ins {
+			if tag == 0x30 && xi > 2 && !k.c.Thorough {
+				continue
+			}
+			start := room - 1 - len(x.hdr)
+			whole[start] = tag
+			copy(whole[start+1:], x.hdr)
+			b := whole[start : room+x.n : room+x.n]
+			k.checkInput(b, [3]bool{true, true, true}, st)
+			n++
+			if k.c.Expired() {
+				return
+			}
+		}
+	}
+	st.orig = nil
+	k.c.Set("huge_2^24_inputs", n)
+	// builders at the same boundary
+	for _, m := range []int{B - 1, B} {
+		data := content[:m]
+		d := fmt.Sprintf("%d bytes", m)
+		k.build("AddASN1OctetString", derref.Element(0x04, data), false, func(b *cryptobyte.Builder) { b.AddASN1OctetString(data) }, d)
+		if k.c.Thorough {
+			k.build("AddASN1BitString", derref.Element(0x03, append([]byte{0}, data[:m-1]...)), false, func(b *cryptobyte.Builder) { b.AddASN1BitString(data[:m-1]) }, d)
+		}
+	}
 }
 
 // ---------------------------------------------------------------------------
@@ -1436,33 +1657,71 @@ func (k *checker) gridG3(contents []content) {
 // B: builders
 // ---------------------------------------------------------------------------
 
+// build runs one builder call f in three contexts (D): on a fresh zero Builder; as the
+// middle element of a SEQUENCE (child builder that already holds a sibling, another sibling
+// after it); and on a fixed-size Builder whose capacity is exactly the encoding's length and
+// whose buffer holds old bytes. The encoding must be the same DER in all of them.
 func (k *checker) build(name string, want []byte, wantErr bool, f func(b *cryptobyte.Builder), detail string) []byte {
 	c := k.c
-	var b cryptobyte.Builder
-	var out []byte
-	var err error
-	if p, v, _ := vf.Protect(func() { f(&b); out, err = b.Bytes() }); p {
-		c.Violation(name+" panics", map[string]any{"value": detail, "panic": fmt.Sprint(v)})
-		return nil
-	}
-	c.Eval(1)
-	if wantErr {
-		if err == nil {
-			c.Violation(name+" encodes a value that has no DER encoding", map[string]any{"value": detail, "output": hexN(out)})
+	var first []byte
+	for ctx, cname := range []string{"", " (as the middle element of a SEQUENCE)", " (fixed-size builder of exact capacity)"} {
+		var b *cryptobyte.Builder
+		wantCtx := want
+		run := f
+		switch ctx {
+		case 0:
+			b = new(cryptobyte.Builder)
+		case 1:
+			b = new(cryptobyte.Builder)
+			if !wantErr {
+				body := append(append([]byte{0x02, 0x01, 0x05}, want...), 0x05, 0x00)
+				wantCtx = derref.Element(0x30, body)
+			}
+			run = func(b *cryptobyte.Builder) {
+				b.AddASN1(asn1.SEQUENCE, func(ch *cryptobyte.Builder) {
+					ch.AddASN1Int64(5)
+					f(ch)
+					ch.AddASN1NULL()
+				})
+			}
+		case 2:
+			if wantErr {
+				continue
+			}
+			buf := bytes.Repeat([]byte{0xEE}, len(want))
+			b = cryptobyte.NewFixedBuilder(buf[:0])
 		}
-		c.Nontrivial(name + "|error")
+		var out []byte
+		var err error
+		if p, v, _ := vf.Protect(func() { run(b); out, err = b.Bytes() }); p {
+			c.Violation(name+" panics", map[string]any{"value": detail, "panic": fmt.Sprint(v), "context": cname})
+			return nil
+		}
+		c.Eval(1)
+		if wantErr {
+			if err == nil {
+				c.Violation(name+" encodes a value that has no DER encoding", map[string]any{"value": detail, "output": hexN(out), "context": cname})
+			}
+			c.Nontrivial(name + "|error")
+			continue
+		}
+		if err != nil {
+			c.Violation(name+" fails on a representable value"+cname, map[string]any{"value": detail, "err": err.Error()})
+			return nil
+		}
+		if !bytes.Equal(out, wantCtx) {
+			c.Violation(name+" does not emit the DER encoding"+cname, map[string]any{"value": detail, "got": hexN(out), "want": hexN(wantCtx)})
+			return nil
+		}
+		if ctx == 0 {
+			first = out
+		}
+	}
+	if wantErr {
 		return nil
 	}
-	if err != nil {
-		c.Violation(name+" fails on a representable value", map[string]any{"value": detail, "err": err.Error()})
-		return nil
-	}
-	if !bytes.Equal(out, want) {
-		c.Violation(name+" does not emit the DER encoding", map[string]any{"value": detail, "got": hexN(out), "want": hexN(want)})
-		return nil
-	}
-	c.Nontrivial(fmt.Sprintf("%s|len%d", name, min(len(out), 12)))
-	return out
+	c.Nontrivial(fmt.Sprintf("%s|len%d", name, min(len(first), 12)))
+	return first
 }
 
 func (k *checker) stdAgree(name string, enc []byte, ptr any, want any, detail string) {
@@ -1588,7 +1847,18 @@ func (k *checker) builders() {
 		v := v
 		d := v.String()
 		want := derref.Element(0x02, derref.IntegerContent(v))
-		out := k.build("AddASN1BigInt", want, false, func(b *cryptobyte.Builder) { b.AddASN1BigInt(v) }, d)
+		out := k.build("AddASN1BigInt", want, false, func(b *cryptobyte.Builder) {
+			// A: the argument stays the caller's - unchanged by the call, and overwritten right after it
+			arg := new(big.Int).Set(v)
+			b.AddASN1BigInt(arg)
+			if arg.Cmp(v) != 0 {
+				c.Violation("AddASN1BigInt modifies its argument", map[string]any{"value": d, "after": arg.String()})
+			}
+			for i, w := range arg.Bits() {
+				arg.Bits()[i] = ^w
+			}
+			arg.SetInt64(0x5a5a)
+		}, d)
 		var sb *big.Int
 		k.stdAgree("AddASN1BigInt", out, &sb, v, d)
 		if out != nil {
@@ -1641,10 +1911,17 @@ func (k *checker) builders() {
 	for _, data := range octetContents() {
 		data := data
 		d := fmt.Sprintf("%d bytes", len(data))
-		out := k.build("AddASN1OctetString", derref.Element(0x04, data), false, func(b *cryptobyte.Builder) { b.AddASN1OctetString(data) }, d)
+		owned := func(add func(p []byte)) { // A: private copy, wiped as soon as the call has returned
+			p := append(make([]byte, 0, len(data)+8), data...)
+			add(p)
+			for i := range p {
+				p[i] ^= 0xFF
+			}
+		}
+		out := k.build("AddASN1OctetString", derref.Element(0x04, data), false, func(b *cryptobyte.Builder) { owned(b.AddASN1OctetString) }, d)
 		var sb []byte
 		k.stdAgree("AddASN1OctetString", out, &sb, data, d)
-		out = k.build("AddASN1BitString", derref.Element(0x03, append([]byte{0}, data...)), false, func(b *cryptobyte.Builder) { b.AddASN1BitString(data) }, d)
+		out = k.build("AddASN1BitString", derref.Element(0x03, append([]byte{0}, data...)), false, func(b *cryptobyte.Builder) { owned(b.AddASN1BitString) }, d)
 		var bs encoding_asn1.BitString
 		if out != nil {
 			if rest, err := encoding_asn1.Unmarshal(out, &bs); err != nil || len(rest) != 0 || !bytes.Equal(bs.Bytes, data) || bs.BitLength != 8*len(data) {
@@ -1671,7 +1948,16 @@ func (k *checker) builders() {
 		if ok && o[0] == 2 && o[1] > derref.MaxArc-80 {
 			continue // 2.x with 80+x above 2^31-1: readers cannot represent it; the builder's behaviour is not specified
 		}
-		out := k.build("AddASN1ObjectIdentifier", derref.Element(0x06, content), !ok, func(b *cryptobyte.Builder) { b.AddASN1ObjectIdentifier(o) }, d)
+		out := k.build("AddASN1ObjectIdentifier", derref.Element(0x06, content), !ok, func(b *cryptobyte.Builder) {
+			arg := append(encoding_asn1.ObjectIdentifier(nil), o...)
+			b.AddASN1ObjectIdentifier(arg)
+			if !arg.Equal(o) {
+				c.Violation("AddASN1ObjectIdentifier modifies its argument", map[string]any{"value": d})
+			}
+			for i := range arg {
+				arg[i] = 1
+			}
+		}, d)
 		var so encoding_asn1.ObjectIdentifier
 		k.stdAgree("AddASN1ObjectIdentifier", out, &so, encoding_asn1.ObjectIdentifier(o), d)
 		if out != nil {
@@ -1734,7 +2020,11 @@ func (k *checker) builders() {
 func run(c *vf.Ctx) {
 	c.Rule("inputs: every byte string of length <=3, the TLV grid (256 identifier octets x 10 length-octet forms x 3 tails x per-type content classes), the UTCTime/GeneralizedTime field grammars, " +
 		"explicit-tag wrappers; each input into every reader (tagged readers with the input's own identifier octet, its constructed-bit twin and one fixed tag); builders over the integer/OID/time/string value alphabets; " +
-		"non-trivial = distinct (reader, accepted, model class, content length) and distinct rejection reasons of the DER grammar; oracle = X.690 reference grammar verif/ref/derref; encoding/asn1 only for value agreement when both accept")
+		"non-trivial = distinct (reader, accepted, model class, content length) and distinct rejection reasons of the DER grammar; oracle = X.690 reference grammar verif/ref/derref; encoding/asn1 only for value agreement when both accept; " +
+		"hardening dimensions: (A) no reader writes to its input (pristine copy compared after every input), the *big.Int default of ReadOptionalASN1Integer stays the caller's, builder arguments (*big.Int, OID, byte slices) are private copies checked for modification and overwritten right after the call; " +
+		"(B) every reader destination holds an old non-zero value of another length (integers all-ones, *big.Int a 300-bit negative, slices/OID/BitString/time non-empty; BOOLEAN with both old values); " +
+		"(C) elements of 2^24-1, 2^24 and 2^24+1 content octets under OCTET STRING and SEQUENCE (the only inputs on which the four-octet long form is minimal) incl. the non-minimal 84 00ffffff form, one octet missing / trailing, and AddASN1OctetString at 2^24-1 / 2^24; " +
+		"(D) every builder call also as the middle element of a SEQUENCE and on a fixed-size builder of exact capacity; (E) nil outTag / nil outPresent variants of ReadAnyASN1(Element) / ReadOptionalASN1 / ReadOptionalASN1OctetString, INTEGER contents of 31/32/33/255/256/257 octets (minimal and padded, both signs), OCTET STRING lengths 0x180/0x7fff/0x8000/0xff00/0x10080")
 	c.Assume("cryptobyte's documented deviations are not alarmed on: high-tag-number identifiers rejected, UTCTime with minute precision and time differentials (+-hhmm) tolerated, GeneralizedTime with a seconds fraction unsupported; arcs above 2^31-1 not representable")
 	c.Assume("time differentials with hour 24 (accepted via time.Parse) are classified as don't-care")
 
@@ -1793,6 +2083,8 @@ func run(c *vf.Ctx) {
 	k.builders()
 	phase("builders")
 	k.special()
+	k.huge()
+	phase("huge_2^24")
 	k.gridG2()
 	phase("G2_time_grammar")
 	k.gridG3(core)
